@@ -49,7 +49,7 @@ Qed.
 
 Lemma kstep_inv w k : Inv w -> wf_kev w k = true -> Inv (kstep w k).
 Proof.
-  intros I W. destruct k as [p s pp|p|p|d].
+  intros I W. destruct k as [p s pp cm|p|p|p|d].
   - (* Spawn *)
     cbn [wf_kev] in W. apply andb_true_iff in W as [W Wh]. apply andb_true_iff in W as [W Wl].
     apply andb_true_iff in W as [W Ws]. apply andb_true_iff in W as [Wp0 Wp1].
@@ -57,7 +57,7 @@ Proof.
     assert (Fresh : forall i, ~ In (i, p, s) (hist w)).
     { intros i Hi. rewrite forallb_forall in Wh. apply Wh in Hi. rewrite !Z.eqb_refl in Hi. discriminate. }
     pose proof (inv_next _ I) as N0.
-    assert (Al : forall i q t, In (i, q, t) (hist w) -> alive w i = false -> alive (kstep w (Spawn p s pp)) i = false).
+    assert (Al : forall i q t, In (i, q, t) (hist w) -> alive w i = false -> alive (kstep w (Spawn p s pp cm)) i = false).
     { intros i q t Hi A. apply alive_false. cbn [kstep table]. intros k Hk E.
       apply in_app_iff in Hk as [Hk|[Hk|[]]].
       - apply (proj1 (alive_false w i) A k Hk E).
@@ -84,6 +84,12 @@ Proof.
       intros x i ((s0 & Es0 & H1) & H2 & H3 & H4 & H5). unfold obj_ok. cbn [hist]. splits; auto; try lia.
       * exists s0. split; auto. right; auto.
       * intros G. eapply Al; eauto.
+  - (* SpawnThread *)
+    apply (inv_table_shrink w); auto; cbn [kstep table].
+    + rewrite map_map. erewrite map_ext; [apply (inv_nodup _ I)|].
+      intros k. destruct (kpid k =? p); reflexivity.
+    + intros k' Hk'. apply in_map_iff in Hk' as [k [E Hk]]. exists k. split; auto.
+      subst k'. destruct (kpid k =? p); auto.
   - (* Exit *)
     apply (inv_table_shrink w); auto; cbn [kstep table].
     + rewrite map_map. erewrite map_ext; [apply (inv_nodup _ I)|].
@@ -130,7 +136,14 @@ Lemma iter_loop_objs K ps : forall newp os pm acc os' pm' r,
 Proof.
   induction ps as [|p ps IH]; intros newp os pm acc os' pm' r H; cbn [iter_loop] in H.
   - inversion H; subst. exists []. rewrite app_nil_r. auto.
-  - destruct (assoc_nat p pm); [eauto|].
+  - destruct (assoc_nat p pm) as [i0|].
+    { destruct (match nth_error os i0 with Some x => oreused x | None => false end); [|eauto].
+      destruct (new_obj K p) as [y|e|] eqn:N.
+      + apply IH in H as [news [E F]]. exists (y :: news). rewrite <- app_assoc in E. split; auto.
+        constructor; eauto.
+      + destruct e; try (inversion H; subst; exists []; rewrite app_nil_r; split; [reflexivity|constructor]).
+        eauto.
+      + inversion H; subst. exists []. rewrite app_nil_r. auto. }
     destruct (memz p newp); [|eauto].
     destruct (new_obj K p) as [y|e|] eqn:N.
     + apply IH in H as [news [E F]]. exists (y :: news). rewrite <- app_assoc in E. split; auto.
